@@ -111,8 +111,8 @@ def run(pid, pc, tier, seed, replay):
     res = runs[-1]
     # merge the corpus runs into the main result (their seeds are recorded per failure)
     for r_ in runs[:-1]:
-        for k in ("compared", "spec_ok", "inconclusive", "pairs_total", "distinct"):
-            res[k] += r_[k]
+        for k in ("compared", "spec_ok", "inconclusive", "pairs_total", "distinct", "decided_by_theorem", "inconclusive_undecided"):
+            res[k] = res.get(k, 0) + r_.get(k, 0)
         for m in r_["mismatches"]:
             m["_run"] = r_
         for m in r_["spec_fail"]:
@@ -134,6 +134,8 @@ def run(pid, pc, tier, seed, replay):
         "class_tables_enumerated_exhaustively": stats.get("class_tables_enumerated", 0),
         "spec_verdicts_ok": res["spec_ok"],
         "inconclusive": res["inconclusive"],
+        "decided_by_compiler_theorem": res.get("decided_by_theorem", 0),
+        "inconclusive_and_not_decided_by_compiler_theorem": res.get("inconclusive_undecided", 0),
         "notes_count": len(res.get("notes", [])),
         "notes_sample": sorted(set(res.get("notes", [])))[:5],
         "state_pairs_checked_by_closedCheck": res["pairs_total"],
